@@ -31,10 +31,46 @@ pub fn c08(ctx: &Ctx, subj: &dyn DynSubject, ty: &Ty, rep: &mut Report) {
                 Err(p) => return Err(Fail::new(&format!("store-panic:{}", panic_class(&p)), format!("store to /dev/full panicked: {}", p))),
             }
         }
-        // store writes exactly the serialized bytes
-        match guard(|| subj.store(v, &path)) {
+        // files next to the destination that share its stem (a previous temporary, a backup, another component of
+        // the same data set) must survive the store, and another thread storing to such a sibling at the same time
+        // must not disturb it
+        let sibling_exts = ["tmp", "bak", "part", "aux"];
+        let sentinel: Vec<u8> = (0..37u8).map(|i| i.wrapping_mul(29) ^ 0x5c).collect();
+        for e in &sibling_exts[..3] {
+            std::fs::write(path.with_extension(e), &sentinel).map_err(|e| Fail::new("harness:tmpfile", format!("cannot write sibling file: {}", e)))?;
+        }
+        let concurrent = ent.pick(2) == 0;
+        let aux_path = path.with_extension("aux");
+        let aux_result = std::thread::scope(|sc| {
+            let h = if concurrent { Some(sc.spawn(|| guard(|| subj.store(v, &aux_path)))) } else { None };
+            // store writes exactly the serialized bytes
+            let main = guard(|| subj.store(v, &path));
+            (main, h.map(|h| h.join()))
+        });
+        match aux_result.0 {
             Ok(Ok(())) => {}
-            other => return Err(Fail::new("store-failed", format!("store failed: {:?}", other.map(|r| r.map_err(|e| format!("{:?}", e)))))),
+            other => return Err(Fail::new("store-failed", format!("store failed{}: {:?}", if concurrent { " (while another thread stored the same value to a file with the same stem)" } else { "" }, other.map(|r| r.map_err(|e| format!("{:?}", e)))))),
+        }
+        if concurrent {
+            log.classes.push("two-concurrent-stores-same-stem".into());
+            log.extra_evals += 1;
+            match aux_result.1 {
+                Some(Ok(Ok(Ok(())))) => {}
+                other => return Err(Fail::new("store-failed", format!("concurrent store to a sibling file failed: {:?}", other.map(|r| r.map(|r| r.map(|r| r.map_err(|e| format!("{:?}", e)))).map_err(|_| "thread panicked"))))),
+            }
+            let aux = std::fs::read(&aux_path).map_err(|e| Fail::new("store-bytes", format!("the file stored concurrently under the same stem cannot be read back: {}", e)))?;
+            if aux.len() != bytes.len() || !same_masked(&enc, &aux, &bytes) {
+                return Err(Fail::new("store-bytes", format!("two threads stored the same value to {:?} and {:?} at the same time: the second file has {} bytes, serialize produces {} (or contents differ)", path.file_name(), aux_path.file_name(), aux.len(), bytes.len())));
+            }
+            std::fs::remove_file(&aux_path).ok();
+        }
+        for e in &sibling_exts[..3] {
+            let sp = path.with_extension(e);
+            match std::fs::read(&sp) {
+                Ok(b) if b == sentinel => {}
+                other => return Err(Fail::new("store-disturbs-sibling", format!("after store to {:?} the unrelated file {:?} next to it {}", path.file_name(), sp.file_name(), match other { Ok(b) => format!("holds {} other bytes", b.len()), Err(e) => format!("is gone ({})", e) }))),
+            }
+            std::fs::remove_file(&sp).ok();
         }
         let file = std::fs::read(&path).map_err(|e| Fail::new("harness:tmpfile", format!("cannot read back temp file: {}", e)))?;
         if file.len() != bytes.len() || !same_masked(&enc, &file, &bytes) {
